@@ -205,6 +205,47 @@ func init() {
 			<-doneB
 			h.timedSlow("H8 forced interleaving: A right after B restarted a stale clock", 150*time.Millisecond, period)
 
+			// H11: two deadlines start while the clock is stopped; the caller with the SHORTER timeout (S) is held between
+			// computing its deadline and extending the clock, the one with the LONGER timeout (L) restarts the clock first.
+			// clockEnd must never move backwards, or the clock stops before L's deadline and L's timeout never fires.
+			if rep == 0 {
+				regexp2.StopTimeoutClock() // H8's caller B asked for 5 s: the clock would otherwise run on
+				time.Sleep(100 * time.Millisecond)
+				hit, release = arm("deadlineSlow")
+				doneS := make(chan struct{})
+				go func() {
+					h.timedQuick("H11 (caller S, held before extendClock)", 600*time.Millisecond)
+					close(doneS)
+				}()
+				select {
+				case <-hit:
+				case <-time.After(2 * time.Second):
+					h.record("H11", "gate deadlineSlow reached", false, true, 0, "hook not reached (drift)")
+				}
+				dL := 2500 * time.Millisecond
+				resL := make(chan error, 1)
+				t0 := time.Now()
+				go func() {
+					re := regexp2.MustCompile(catastrophic)
+					re.MatchTimeout = dL
+					_, err := re.MatchString(slowInput())
+					resL <- err
+				}()
+				time.Sleep(60 * time.Millisecond) // L has restarted the clock and is running
+				release()
+				<-doneS
+				var errL error
+				select {
+				case errL = <-resL:
+				case <-time.After(dL + time.Second - time.Since(t0)):
+					errL = fmt.Errorf("still running %v after its %v timeout", time.Since(t0).Round(time.Millisecond), dL)
+					h.timedQuick("H11 (restarting the clock)", 50*time.Millisecond) // lets the stuck match see the time again
+					<-resL
+				}
+				el := time.Since(t0)
+				h.record("H11 forced interleaving: a shorter deadline extends the clock after a longer one", "the longer match still reports its timeout", isTimeout(errL), true, el, fmt.Sprint(errL))
+			}
+
 			// H9: StopTimeoutClock between matches
 			regexp2.StopTimeoutClock()
 			h.record("H9 StopTimeoutClock between matches", "the clock goroutine is gone after StopTimeoutClock", !clockRunning(), true, 0, "")
